@@ -39,62 +39,84 @@ def generate(ctx):
     return cases, n
 
 
+CHUNK_LINES = 20000
+CHUNK_BYTES = 40 << 20
+
+
 def judge_all(ctx, mode, parts, corruptions):
-    """One TLC run of Trace_DicomJson (Mode = shape | rt) over the concatenation of the events
-    files in `parts` [(label, events_path)], followed by a binding self-test section: copies of
-    recorded events with one field corrupted by each of `corruptions` [(label_of_part, fn)];
-    TLC must flag every corrupted copy.  Returns {label: [(local_line, diagnosis, event)]}, total."""
-    comb = ctx.path("judge_%s.ndjson" % mode)
-    index = []          # global line -> (label, local line)
+    """Trace_DicomJson (Mode = shape | rt) over the events files in `parts` [(label, events_path)],
+    followed by a binding self-test section: copies of recorded events with one field corrupted by
+    each of `corruptions` [(label_of_part, fn)]; TLC must flag every corrupted copy.  The events are
+    independent, so they are validated in chunks (one TLC run each) to bound TLC's memory.
+    Returns {label: [(local_line, diagnosis, event)]}, number of recorded events."""
+    chunks = []          # [(path, [(label, local line) per line])]
+    cur = {"f": None, "idx": None, "bytes": 0}
+
+    def emit(text, tag):
+        if cur["f"] is None or len(cur["idx"]) >= CHUNK_LINES or cur["bytes"] + len(text) > CHUNK_BYTES:
+            if cur["f"] is not None:
+                cur["f"].close()
+            path = ctx.path("judge_%s_%d.ndjson" % (mode, len(chunks) + 1))
+            cur["f"], cur["idx"], cur["bytes"] = open(path, "w"), [], 0
+            chunks.append((path, cur["idx"]))
+        cur["f"].write(text if text.endswith("\n") else text + "\n")
+        cur["idx"].append(tag)
+        cur["bytes"] += len(text)
+
     per_label = {}
-    with open(comb, "w") as out:
-        for label, path in parts:
-            evs = []
-            with open(path) as f:
-                for i, ln in enumerate(f, 1):
-                    out.write(ln if ln.endswith("\n") else ln + "\n")
-                    index.append((label, i))
-                    if len(evs) < 600:
-                        evs.append(ln)
-            per_label[label] = evs
-        n_real = len(index)
-        expected = []
-        for label, fn in corruptions:
-            k = 0
-            for i, ln in enumerate(per_label.get(label, [])):
-                if i % 53 != 7:
-                    continue
-                e = json.loads(ln)
-                if fn(e):
-                    e["src"] = "selftest"
-                    out.write(json.dumps(e, separators=(",", ":")) + "\n")
-                    index.append(("selftest", len(index) + 1))
-                    expected.append(len(index))
-                    k += 1
-            if k == 0:
-                raise vlib.ToolError("binding self-test: nothing to corrupt in " + label)
-    res = vlib.validate_trace(SPEC, "Trace_DicomJson", comb, cfg="Trace_DicomJson_%s.cfg" % mode, timeout=1800, heap="6g")
-    r = res["result"]
-    ctx.add_tlc(r)
-    if not res["accepted"]:
-        raise vlib.ToolError("Trace_DicomJson did not consume %s (line %s): %s" % (comb, res["line"], str(res["record"])[:500]))
-    if r.distinct != len(index) + 1:
-        raise vlib.ToolError("Trace_DicomJson consumed %d of %d events" % (r.distinct - 1, len(index)))
-    vlib.log("[%s] %d recorded events (+%d corrupted copies) judged by TLC (Mode=%s) in %.1fs" % (ctx.pid, n_real, len(expected), mode, r.wall_s))
-    bad = {int(m.group(1)): sorted(json.loads(vlib.tla_unescape(m.group(2)))) for m in _bad_re.finditer(r.out)}
-    missing = [g for g in expected if g not in bad]
-    if missing:
-        raise vlib.ToolError("binding self-test (%s): %d corrupted events were not flagged by TLC (lines %s)" % (mode, len(missing), missing[:5]))
-    if corruptions:
-        ctx.extra_cov["binding_selftest_" + mode] = "%d recorded events copied with one corrupted field, all flagged by Trace_DicomJson" % len(expected)
+    n_real = 0
+    for label, path in parts:
+        evs = []
+        with open(path) as f:
+            for i, ln in enumerate(f, 1):
+                emit(ln, (label, i))
+                n_real += 1
+                if len(evs) < 600 and len(ln) < 20000:
+                    evs.append(ln)
+        per_label[label] = evs
+    n_self = 0
+    for label, fn in corruptions:
+        k = 0
+        for i, ln in enumerate(per_label.get(label, [])):
+            if i % 53 != 7:
+                continue
+            e = json.loads(ln)
+            if fn(e):
+                e["src"] = "selftest"
+                emit(json.dumps(e, separators=(",", ":")), ("selftest", n_self))
+                n_self += 1
+                k += 1
+        if k == 0:
+            raise vlib.ToolError("binding self-test: nothing to corrupt in " + label)
+    if cur["f"] is not None:
+        cur["f"].close()
     result = {label: [] for label, _ in parts}
-    want = {g for g in bad if g <= n_real}
-    if want:
-        with open(comb) as f:
-            for g, ln in enumerate(f, 1):
-                if g in want:
-                    label, local = index[g - 1]
-                    result[label].append((local, bad[g], json.loads(ln)))
+    flagged_self = 0
+    wall = 0.0
+    for path, idx in chunks:
+        res = vlib.validate_trace(SPEC, "Trace_DicomJson", path, cfg="Trace_DicomJson_%s.cfg" % mode, timeout=2400, heap="6g")
+        r = res["result"]
+        ctx.add_tlc(r)
+        wall += r.wall_s
+        if not res["accepted"]:
+            raise vlib.ToolError("Trace_DicomJson did not consume %s (line %s): %s" % (path, res["line"], str(res["record"])[:500]))
+        if r.distinct != len(idx) + 1:
+            raise vlib.ToolError("Trace_DicomJson consumed %d of %d events" % (r.distinct - 1, len(idx)))
+        bad = {int(m.group(1)): sorted(json.loads(vlib.tla_unescape(m.group(2)))) for m in _bad_re.finditer(r.out)}
+        flagged_self += sum(1 for g in bad if idx[g - 1][0] == "selftest")
+        want = {g for g in bad if idx[g - 1][0] != "selftest"}
+        if want:
+            with open(path) as f:
+                for g, ln in enumerate(f, 1):
+                    if g in want:
+                        label, local = idx[g - 1]
+                        result[label].append((local, bad[g], json.loads(ln)))
+    vlib.log("[%s] %d recorded events (+%d corrupted copies) judged by TLC (Mode=%s) in %d run(s), %.1fs" % (
+        ctx.pid, n_real, n_self, mode, len(chunks), wall))
+    if flagged_self != n_self:
+        raise vlib.ToolError("binding self-test (%s): %d of %d corrupted events were flagged by TLC" % (mode, flagged_self, n_self))
+    if corruptions:
+        ctx.extra_cov["binding_selftest_" + mode] = "%d recorded events copied with one corrupted field, all flagged by Trace_DicomJson" % n_self
     return result, n_real
 
 
